@@ -27,6 +27,7 @@ type c12Combo struct {
 	Mode    uint32   `json:"mode"`
 	Front   bool     `json:"front"`
 	EvalAll bool     `json:"eval_all"`
+	AppDir  bool     `json:"append_only_dir,omitempty"` // with ImmDir: chattr +a instead of +i - new entries can be made but none replaced or removed: the sibling staging file is written, its rename fails, yq has to write the target itself after all
 	ImmDir  bool     `json:"immutable_dir,omitempty"` // the target's directory accepts no new entries (chattr +i): neither the rename nor a sibling staging file is possible, yq has to write the target itself
 }
 
@@ -108,6 +109,7 @@ func c12Combos(thorough bool) []c12Combo {
 	// a direct write cannot be all-or-nothing; what is checked is that the file ends up with exactly the new content)
 	for _, e := range []ex{{"ok", "single", []string{".a = 5"}}, {"shrinks", "single", []string{"del(.b)"}}, {"shrinks-big", "big", []string{"del(.items[2:])"}}, {"grows", "single", []string{`.c = "` + strings.Repeat("y", 300) + `"`}}, {"ok3", "three", []string{".a += 1"}}} {
 		out = append(out, c12Combo{Name: "immutable-dir/" + e.name, Input: in[e.input], Args: e.args, XDev: true, Mode: 0o640, ImmDir: true})
+		out = append(out, c12Combo{Name: "append-only-dir/" + e.name, Input: in[e.input], Args: e.args, XDev: true, Mode: 0o640, ImmDir: true, AppDir: true})
 	}
 	for _, xdev := range []bool{false, true} {
 		out = append(out, c12Combo{Name: "front-matter", Input: in["front"], Args: []string{"--front-matter=process", ".a = 5"}, XDev: xdev, Mode: 0o640, Front: true})
@@ -149,10 +151,14 @@ func c12Exec(work string, cb c12Combo, plan string, inPlace, trace bool) (c12Obs
 	}
 	os.Chmod(target, os.FileMode(cb.Mode))
 	if cb.ImmDir {
-		if out, err := exec.Command("chattr", "+i", filepath.Join(dir, "imm")).CombinedOutput(); err != nil {
-			return c12Obs{}, fmt.Errorf("chattr +i not possible here: %v %s", err, out)
+		attr := "i"
+		if cb.AppDir {
+			attr = "a"
 		}
-		defer exec.Command("chattr", "-i", filepath.Join(dir, "imm")).Run()
+		if out, err := exec.Command("chattr", "+"+attr, filepath.Join(dir, "imm")).CombinedOutput(); err != nil {
+			return c12Obs{}, fmt.Errorf("chattr +%s not possible here: %v %s", attr, err, out)
+		}
+		defer exec.Command("chattr", "-"+attr, filepath.Join(dir, "imm")).Run()
 	}
 	tmp := filepath.Join(dir, "tmp")
 	if cb.XDev {
@@ -347,7 +353,7 @@ func c12Run(c *fw.Ctx) error {
 		c12StraceCheck(c, work)
 	}
 	combos := c12Combos(c.Thorough())
-	c.Res.Bound = fmt.Sprintf("%d (input, expression, configuration) combinations x every single fault at every reached step (error, short write/copy, SIGKILL before the step, SIGKILL after half a write); double faults on %s; 5 of the combinations run without faults in a directory that accepts no new entries (chattr +i) with the temp dir on another file system, where yq has to write the target itself", len(combos), map[bool]string{false: "the `ok` and `ok3` combinations", true: "every combination"}[c.Thorough()])
+	c.Res.Bound = fmt.Sprintf("%d (input, expression, configuration) combinations x every single fault at every reached step (error, short write/copy, SIGKILL before the step, SIGKILL after half a write); double faults on %s; 5 + 5 of the combinations run without faults in a directory that accepts no new entries (chattr +i), or new entries but no replacement (chattr +a), with the temp dir on another file system, where yq has to write the target itself", len(combos), map[bool]string{false: "the `ok` and `ok3` combinations", true: "every combination"}[c.Thorough()])
 	var idx int64
 	for ci, cb := range combos {
 		if cb.XDev && !xdevOK {
